@@ -99,7 +99,14 @@ def build(tier):
             actor = Obj("model.actor", {"get_output_dense": Fn(model=lambda ex, st, a, k: Layer(), name="get_output_dense")}, label="actor")
             st.locals["self"] = Obj("model.bandit", {"actor": actor, "lamb": z3.Real("lamb"), "device": "cpu"}, label="self")
         P.lib["torch.eye"] = lambda ex, st, a, k: MX(("eye", a[0]))
-        P.lib["torch.cat"] = lambda ex, st, a, k: Opaque("cat")
+        class CatT:
+            """flattened parameter vector: detach() keeps the values"""
+
+            def getattr(self, ex, st, name):
+                if name in ("detach", "clone"):
+                    return Fn(model=lambda ex, st, a, k: self, name=name)
+                raise Undecided(name)
+        P.lib["torch.cat"] = lambda ex, st, a, k: CatT()
 
         def init_post(obj):
             got = obj.fields.get("sigma_inv")
